@@ -40,6 +40,7 @@ func (e *Exec) evalSpecArgs(st *State, fn *ssa.Function, args []Value, assertMod
 	e.specDefs = nil
 	s2 := st.Clone()
 	n := len(s2.pc)
+	nf := len(s2.facts)
 	savedBase := e.specBase
 	if e.specMode == 1 {
 		e.specBase = n
@@ -62,6 +63,9 @@ func (e *Exec) evalSpecArgs(st *State, fn *ssa.Function, args []Value, assertMod
 			delta = And(o.st.pc[n:]...)
 		}
 		alts = append(alts, And(delta, r))
+		for _, f := range o.st.facts[nf:] {
+			st.AssumeFact(f)
+		}
 	}
 	R := Or(alts...)
 	// definedness: each collected implication has the full path condition as antecedent
